@@ -308,7 +308,9 @@ derives for a TILED_FULL image — any number of channels and focal planes — a
 `compute_plane_position_slide_per_frame` — any geometry, spacing between slices, origin — carry the same pixel matrix position,
 and the row points to frame `n`: the look-up the region reads of C04 use and the positions handed to other tools are the same
 tiling, frame by frame.  The (channel, column, row) triples of the per-frame data are channels × focal planes × the row-major grid
-and do not depend on the geometry at all. -/
+and do not depend on the geometry at all.  (In the code the frame table of a TILED_FULL image is built FROM `iter_tiled_full_frame_data`
+(`image.py`, `zip(*iter_tiled_full_frame_data(self))`), so this holds of the code by construction: the theorem is a consistency check between
+C04's model of that table and C12's model of the wrapper; that line of `image.py` is tied by C04's TILED_FULL region reads, L0.) -/
 theorem frame_table_agrees_with_plane_positions (channels : List (Option Int)) (planes tr tc R C : Int) (g : Geo) (sbs : Rat)
     (hr : 1 ≤ tr) (hc : 1 ≤ tc) (hR : 1 ≤ R) (hC : 1 ≤ C) :
     (∃ lut L, tiledFullLut channels planes tr tc R C = .ok lut ∧ slidePerFrame channels planes tr tc R C g sbs = .ok L ∧
@@ -380,7 +382,9 @@ theorem frame_number_inverse (channels : List (Option Int)) (planes tr tc R C : 
   framePosition_inverse channels planes tr tc R C g sbs hr hc hR hC hP n hn
 
 /-- **Inverse of tile → physical position.**  For a geometry whose row and column directions are not parallel and whose spacings
-are not zero, the pixel-to-reference map is injective on pixel indices … -/
+are not zero, the pixel-to-reference map is injective on pixel indices …  (Algebra over exact rationals on the hand-written `pixToRef` — the
+affine map is C10's; tied here by the regenerated offsets handed to it and L0 on every position.  Float positions can coincide below the float
+resolution of the origin.) -/
 theorem position_determines_pixel (g : Geo) (hg : g.nondegenerate) (c r c' r' : Int) (h : pixToRef g c r = pixToRef g c' r') :
     c = c' ∧ r = r' :=
   pixToRef_injective g hg c r c' r' h
